@@ -365,9 +365,9 @@ def run(ctx):
     def fail(key, what, info):
         fails.append((key, what, info))
 
-    nnet = 26 if ctx.quick else 260
-    nap = 160 if ctx.quick else 2500
-    nbs = 400 if ctx.quick else 6000
+    nnet = 26 if ctx.quick else 200
+    nap = 160 if ctx.quick else 2000
+    nbs = 400 if ctx.quick else 5000
     specs = []
     # corpus first: the defects found on the unchanged tree (fixed on wp/C14) and the declared-unsupported combination
     corpus = [
